@@ -112,6 +112,9 @@ def run(res):
         jobs.append(("generate -j " + f, "genjson", f))
     for cmd in ("convert", "demux", "extract-rpu", "remove", "mux", "inject-rpu", "info", "export"):
         jobs.append((cmd, cmd, None))
+    # several `-d` entries naming one output file: the last entry in command-line order wins, in every process
+    jobs.append(("export (two entries sharing an output file)", "export-shared", ["-d", "scenes={X}", "-d", "level5={X}"]))
+    jobs.append(("export (three comma-separated entries sharing an output file)", "export-shared", ["-d", "level5={X},all={X},scenes={X}"]))
     # a list with several distinct L5 / L6 / L2 values: every "distinct values" collection of export
     # and of the summary has more than one element to order
     from . import c16 as C16
@@ -185,6 +188,8 @@ def run(res):
                 args, files = ["info", "-i", rpu_bin, "-f", "3"], []
             elif kind == "export":
                 args, files = ["export", "-i", rpu_bin, "-d", "all=%s" % o("all.json"), "-d", "scenes=%s" % o("scenes.txt"), "-d", "level5=%s" % o("l5.json")], [o("all.json"), o("scenes.txt"), o("l5.json")]
+            elif kind == "export-shared":
+                args, files = ["export", "-i", rpu_bin] + [a.replace("{X}", o("shared.out")) for a in arg], [o("shared.out")]
             elif kind == "export-varied":
                 args, files = ["export", "-i", arg, "-d", "all=%s" % o("all.json"), "-d", "scenes=%s" % o("scenes.txt"), "-d", "level5=%s" % o("l5.json")], [o("all.json"), o("scenes.txt"), o("l5.json")]
             elif kind == "summary-varied":
@@ -229,7 +234,7 @@ def run(res):
     res.coverage.update({
         "evaluations": nrun,
         "distinct_nontrivial": len(jobs),
-        "rule": "each job run in %d fresh processes (per-process hash seeds by construction; different cwd, HOME, TZ, LANG, RUST_BACKTRACE and extra environment noise); hashes of every output file and the exit code compared across runs; editor configs with 2..5 pairwise-overlapping scene-cut and active-area ranges on the 259-frame sample, the same map content written in a different entry order for every run, compared with the Coq model fed in file order and in key order; editor configs with 3..5 `duplicate` entries inserted at one offset from different sources and several `remove` ranges; generate from every sample XML (several target displays; custom targets sharing every value but their id; two targets sharing a peak with an L2 trim for each in the same shots) and generator JSON; convert, demux, extract-rpu, remove, mux, inject-rpu, info, export on the sample streams" % nproc,
+        "rule": "each job run in %d fresh processes (per-process hash seeds by construction; different cwd, HOME, TZ, LANG, RUST_BACKTRACE and extra environment noise); hashes of every output file and the exit code compared across runs; editor configs with 2..5 pairwise-overlapping scene-cut and active-area ranges on the 259-frame sample, the same map content written in a different entry order for every run, compared with the Coq model fed in file order and in key order; editor configs with 3..5 `duplicate` entries inserted at one offset from different sources and several `remove` ranges; generate from every sample XML (several target displays; custom targets sharing every value but their id; two targets sharing a peak with an L2 trim for each in the same shots) and generator JSON; convert, demux, extract-rpu, remove, mux, inject-rpu, info, export (also with several `-d` entries naming one output file) on the sample streams" % nproc,
         "cli_runs": nrun, "distinct_results_per_job": distinct, "model_checked": model_checked,
     })
     res.assumptions += ["independence from environment, working directory and fonts is observed by the repeated runs, not proved",
